@@ -7,6 +7,7 @@ CONSTANTS
   MaxCopies = 3
   MaxSends = 4
   MaxTgtW = 6
+  MaxDeliver = 3
   Depth = 22
 INVARIANT Emit
 CHECK_DEADLOCK FALSE
